@@ -645,14 +645,14 @@ int cif_validate_cif11_characters(UChar *s, UChar **disallowed) {
     if (!is_allowed[UCHAR_SP]) {
         unsigned int i;
         for (i = 0; i < cif11_chars_elements; i += 1) {
-            assert((0 <= cif11_chars[i]) && (cif11_chars[i] < sizeof(is_allowed)));
+            assert((0 <= cif11_chars[i]) && (cif11_chars[i] < ARRAY_LENGTH(is_allowed)));
             is_allowed[cif11_chars[i]] = 1;
         }
     }
     assert(is_allowed[UCHAR_SP]);
 
     while (*s) {
-        if ((*s >= sizeof(is_allowed)) || !is_allowed[*s]) {
+        if ((*s >= ARRAY_LENGTH(is_allowed)) || !is_allowed[*s]) {
             if (disallowed) {
                 *disallowed = s;
             }
